@@ -95,6 +95,7 @@ Encodable(r) ==
     /\ \A i \in 1..Len(items) : ~items[i].big       \* a number that does not fit the 32-bit value word
     /\ \A i \in 1..Len(items) : ItemField(items[i]) >= 0
     /\ (r.kind = "watch" \/ r.syscalls.all \/ \A n \in SyscallNums(r.syscalls) : n >= 0 /\ n < 32 * AUDIT_BITMASK_SIZE)
+    /\ (r.kind = "watch" \/ ~r.syscalls.big)      \* a syscall number written out that no mask bit stands for
 
 \* ---- reading the format back ------------------------------------------------------------------
 WordOfWire(b, w) == LimbsOfBytes(SubSeq(b, 4 * w - 3, 4 * w))
